@@ -1031,6 +1031,101 @@ def rule_r9(prog, res):
     res.floor('R9', 'returns of the deserialised instance', n, 2)
 
 
+# ------------------------------------------------------------------ R10
+def rule_r10(prog, res):
+    res.rule('R10', 'model validators exempt only None (never a falsy value) '
+             'from a facet')
+    funcs = []
+    for c in prog.all_classes():
+        if not c.module.name.startswith('spyne.model'):
+            continue
+        for nm in ('validate_string', 'validate_native'):
+            f = c.methods.get(nm)
+            if f is not None:
+                funcs.append(f)
+    n = guardspec.presence_rule(
+        res, 'R10', funcs, {'value', 'val', 'v', 'inst'},
+        'the empty string (or 0, an empty list) skips the facet test, so '
+        '"" passes min_len >= 1 and the user function runs with it')
+    # the same holds inside boolean expressions that are returned
+    for f in funcs:
+        for node in walk_no_defs(f.node):
+            if isinstance(node, ast.Return) and node.value is not None:
+                for b in ast.walk(node.value):
+                    if isinstance(b, ast.BoolOp):
+                        for v in b.values:
+                            e = v.operand if isinstance(
+                                v, ast.UnaryOp) else v
+                            if isinstance(e, ast.Name) and e.id in (
+                                    'value', 'val', 'v', 'inst'):
+                                where = '%s:%d' % (f.module.relpath,
+                                                   v.lineno)
+                                res.ob('R10', where, '%s: truthiness of %s '
+                                       'in %s' % (f.qualname, e.id,
+                                                  unparse(b)[:50]),
+                                       'VIOLATED')
+                                res.finding(
+                                    'R10', '%s|truthiness|%s' % (f.qualname,
+                                                                 e.id),
+                                    where, '%s exempts every falsy %s from '
+                                    'the facet test (%s): the empty string '
+                                    'passes min_len, 0 passes range checks' %
+                                    (f.qualname, e.id, unparse(b)[:60]))
+    res.count('model_validators', len(funcs))
+    res.floor('R10', 'None-identity tests in model validators', n, 6)
+
+
+# ------------------------------------------------------------------ R11
+DERIVED = {'_pattern_re': 'pattern'}
+
+
+def rule_r11(prog, res):
+    res.rule('R11', 'a cache derived from a facet is only consulted after '
+             'the facet itself was tested')
+    n = 0
+    for f in prog.all_functions():
+        mn = f.module.name
+        if not (mn.startswith('spyne.model') or
+                mn.startswith('spyne.protocol')):
+            continue
+        if f.name.startswith('set_') or f.name == '__init__':
+            continue
+        for a in walk_no_defs(f.node):
+            if not (isinstance(a, ast.Attribute) and a.attr in DERIVED and
+                    isinstance(a.ctx, ast.Load)):
+                continue
+            # only uses (method calls / arguments), not the None test itself
+            p_ = parent(a)
+            if isinstance(p_, ast.Compare):
+                continue
+            n += 1
+            src = DERIVED[a.attr]
+            want = '%s.%s is None' % (unparse(a.value), src)
+            g = [(unparse(e), pol) for e, pol in flatten_guards(
+                guards_at(a, stop=f.node))]
+            ok = (want, False) in g
+            where = '%s:%d' % (f.module.relpath, a.lineno)
+            res.ob('R11', where, '%s: %s used under %s' % (
+                f.qualname, unparse(a), g), 'ok' if ok else 'VIOLATED')
+            if not ok:
+                res.finding('R11', '%s|%s|source-untested' % (f.qualname,
+                                                             a.attr), where,
+                            '%s consults %s without first testing "%s": the '
+                            'cache is only refreshed when a non-None %s is '
+                            'assigned, so a type derived with %s=None keeps '
+                            'enforcing its parent\'s constraint although '
+                            'the declared (and published) facet is gone' % (
+                                f.qualname, unparse(a), want, src, src))
+    res.floor('R11', 'uses of derived facet caches', n, 1)
+
+
+def rule_r12(prog, res):
+    from . import c12
+    from ..report import Result
+    res.share('R12', 'attributes resolved for one protocol instance are not '
+              'served to another (C12-R5)', 'C12', c12.rule_r5, prog, Result)
+
+
 def run(prog, res, tier):
     res.run_rule(rule_r1, prog, res)
     res.run_rule(rule_r2, prog, res)
@@ -1041,6 +1136,9 @@ def run(prog, res, tier):
     res.run_rule(rule_r7, prog, res)
     res.run_rule(rule_r8, prog, res)
     res.run_rule(rule_r9, prog, res)
+    res.run_rule(rule_r10, prog, res)
+    res.run_rule(rule_r11, prog, res)
+    res.run_rule(rule_r12, prog, res)
 
 
 _X = 'spyne/protocol/xml.py'
@@ -1054,6 +1152,18 @@ _I = 'spyne/protocol/_inbase.py'
 _SI = 'spyne/protocol/dictdoc/simple.py'
 
 MUTANTS = [
+    Mutant('min-len-skips-empty', 'R10', 'fire',
+           'spyne/model/primitive/string.py',
+           in_func('Unicode.validate_string', "and (value is None or (",
+                   "and (not value or ("), 'truthiness'),
+    Mutant('pattern-cache-tested-instead-of-facet', 'R11', 'fire',
+           'spyne/model/primitive/_base.py',
+           in_func('re_match_with_span', "if attr.pattern is None:",
+                   "if attr._pattern_re is None:"), 'source-untested'),
+    Mutant('pattern-facet-test-local', 'R11', 'benign',
+           'spyne/model/primitive/_base.py',
+           in_func('re_match_with_span', "if attr.pattern is None:",
+                   "pattern = attr.pattern\n    if pattern is None:"), None),
     Mutant('empty-element-fast-path', 'R9', 'fire', _X,
            in_func('XmlDocument.complex_from_element',
                    "        # parse input to set incoming data to related "
